@@ -95,6 +95,34 @@ func runC14(c *Ctx, idx int) {
 			o.flagForward = pick(r, 0.1, 0.3, 1.0)
 		}
 		s := genNet(r, o)
+		if s.NOut >= 2 && r.Intn(5) == 0 {
+			// side branches that lead nowhere: hidden neurons without any way on are fed by outputs (forward links, no cycle; such
+			// an output still ends the paths that count)
+			var deadEnds []int
+			for v := s.sensors(); v < s.sensors()+s.NHid; v++ {
+				leaves := false
+				for _, e := range s.Edges {
+					leaves = leaves || e.From == v
+				}
+				if !leaves {
+					deadEnds = append(deadEnds, v)
+				}
+			}
+			if len(deadEnds) > 0 {
+				for k := 0; k < 1+r.Intn(2); k++ {
+					out := s.sensors() + s.NHid + r.Intn(s.NOut)
+					to := deadEnds[r.Intn(len(deadEnds))]
+					dup := false
+					for _, e := range s.Edges {
+						dup = dup || (e.From == out && e.To == to)
+					}
+					if !dup {
+						s.Edges = append(s.Edges, netEdge{From: out, To: to, W: r.NormFloat64()})
+					}
+				}
+				c.Count("nets.outputs_feeding_dead_ends", 1)
+			}
+		}
 		hasBack, selfLoop, labelled := false, false, false
 		for _, e := range s.Edges {
 			hasBack = hasBack || e.Back
@@ -221,6 +249,18 @@ func runC14(c *Ctx, idx int) {
 			}
 			c.Count("queries.print_paths", 1)
 			if !marksClear(net, "PrintAllActivationDepthPaths") {
+				return
+			}
+		}
+		if r.Intn(2) == 0 {
+			// the recurrence test the add-link mutation runs on a phenotype is a read-only traversal as well
+			nodes := net.BaseNodes()
+			for k := 0; k < 1+r.Intn(3); k++ {
+				count := 0
+				_ = net.IsRecurrent(nodes[r.Intn(len(nodes))], nodes[r.Intn(len(nodes))], &count, len(nodes)*len(nodes))
+			}
+			c.Count("queries.is_recurrent_in_between", 1)
+			if !marksClear(net, "Network.IsRecurrent") {
 				return
 			}
 		}
